@@ -3,6 +3,7 @@ CONSTANTS
   Dev_KeepAliveAdvances = FALSE
   Dev_RepublishNoAck = FALSE
   Dev_TransferEmptyNoResume = FALSE
+  Dev_UnknownSubKeepsAcks = FALSE
 INIT Init
 NEXT Next
 CHECK_DEADLOCK FALSE
